@@ -17,14 +17,14 @@ import (
 func init() { register("C11", "proof", true, c11) }
 
 type mirrorRes struct {
-	enc      string
-	pos      string
-	und      error
-	diffs    []string
-	foreign  []string
-	implDD   bool
-	implFD   bool
-	events   []string
+	enc     string
+	pos     string
+	und     error
+	diffs   []string
+	foreign []string
+	implDD  bool
+	implFD  bool
+	events  []string
 }
 
 func hasLog(t *dom.Trace) bool {
